@@ -19,6 +19,8 @@ CONSTANTS
   CachePutFails = TRUE
   CrashInCreate = TRUE
   IssuerEntries = {}
+  MaxTampers = 0
+  VerifyEdge = TRUE
   Stops = FALSE
 INVARIANTS LockAppendOnly PublishedWasLocked AckInLock SameAck PubBacked ImmutableStable LeafTimes LoserStops NoForkInLock LeafCount
 PROPERTIES LockStepExtends PubStepWasLocked OutcomeIsFinal
